@@ -435,7 +435,8 @@ pub fn c17(d: &Digest, out: &mut Vec<Violation>) {
                 }
             }
         }
-        if sd.dchan_cap != Some(sd.model.capacity) {
+        // (a tree whose dispatch queue is not a channel gives nothing to read the capacity from)
+        if sd.dchan.is_some() && sd.dchan_cap != Some(sd.model.capacity) {
             v(out, "C17", "capacity-used", format!("store {s}: queue capacity {:?}, configured {}", sd.dchan_cap, sd.model.capacity));
         }
     }
